@@ -35,14 +35,16 @@ slots (`kvs.length ≤ 2^k`: every load factor, *including the completely full t
 1. inserting them with the standard's double hashing (`Spec.Index.build`) succeeds — this is
    where "an odd stride visits every slot" is needed — and
 2. for every parsed index `ix` whose `hash_ids`/`hash_rows` arrays hold the resulting slot
-   table (either byte order) and every non-zero `id`: `UnitIndex::find` returns exactly what a
-   linear scan of `kvs` returns; `some row` iff `(id, row)` is listed, `none` iff `id` is absent. -/
+   table (either byte order) and EVERY `id` — including 0, the unused-slot marker, which is never
+   present (`fix: UnitIndex::find reported the ID 0 as present`) —: `UnitIndex::find` returns
+   exactly what a linear scan of `kvs` returns; `some row` iff `(id, row)` is listed, `none` iff
+   `id` is absent. -/
 theorem index_find_iff_present (k : Nat) (kvs : List (Nat × Nat))
     (hnz : ∀ kv, kv ∈ kvs → kv.1 ≠ 0)
     (hdist : kvs.Pairwise (fun a b => a.1 ≠ b.1))
     (hroom : kvs.length ≤ 2 ^ k) :
     ∃ t, build k kvs = some t ∧
-      ∀ (e : Endian) (ix : UnitIndex), Encodes e k t ix → ∀ id, id ≠ 0 →
+      ∀ (e : Endian) (ix : UnitIndex), Encodes e k t ix → ∀ id,
         find e ix id = scan kvs id ∧
         (∀ row, find e ix id = some row ↔ (id, row) ∈ kvs) ∧
         (find e ix id = none ↔ ∀ row, (id, row) ∉ kvs) := by
@@ -57,10 +59,17 @@ theorem index_find_iff_present (k : Nat) (kvs : List (Nat × Nat))
   refine ⟨t, ht, ?_⟩
   obtain ⟨hinv, hc⟩ := buildFrom_spec k kvs (emptyTable k) t (inv_empty k) hdist
     (by intro kv hkv p _; simp only [slotId, hempty]; exact fun h => hnz kv hkv h.symm) ht
-  intro e ix henc id hid
+  intro e ix henc id
   have hiff : ∀ row, find e ix id = some row ↔ (id, row) ∈ kvs := by
     intro row
-    rw [find_eq_lookup e k t ix henc id, lookup_iff k t hinv id hid row, hc id row hid]
+    by_cases hid : id = 0
+    · -- the key 0 is never stored and never found
+      subst hid
+      rw [find_zero]
+      constructor
+      · intro h; simp at h
+      · intro hm; exact absurd rfl (hnz (0, row) hm)
+    rw [find_eq_lookup e k t ix henc id hid, lookup_iff k t hinv id hid row, hc id row hid]
     constructor
     · rintro (⟨p, _, hp⟩ | hm)
       · rw [hempty] at hp
@@ -79,17 +88,18 @@ theorem index_find_iff_present (k : Nat) (kvs : List (Nat × Nat))
 /-- **The same, stated on the bytes of a `.debug_cu_index` / `.debug_tu_index` section.**  If the
 section is a 16-byte header followed by the signatures and then the row numbers of the slot table
 built from `kvs` (signatures `< 2^64`, rows `< 2^32`), and `UnitIndex::parse` accepts it with
-`slot_count = 2^k`, then `find` on the parsed index is the linear scan of `kvs`. -/
+`slot_count = 2^k`, then `find` on the parsed index is the linear scan of `kvs`, for every `id`
+(0 included). -/
 theorem index_find_on_bytes (k : Nat) (kvs : List (Nat × Nat))
     (hnz : ∀ kv, kv ∈ kvs → kv.1 ≠ 0 ∧ kv.1 < 2 ^ 64 ∧ kv.2 < 2 ^ 32)
     (hdist : kvs.Pairwise (fun a b => a.1 ≠ b.1)) (hroom : kvs.length ≤ 2 ^ k) :
     ∃ t, build k kvs = some t ∧
       ∀ (e : Endian) (hdr tail input : Bytes) (ix : UnitIndex), hdr.length = 16 →
         input = hdr ++ encIds e t ++ encRows e t ++ tail → Index.parse e input = .ok ix →
-        ix.slotCount = 2 ^ k → ∀ id, id ≠ 0 → find e ix id = scan kvs id := by
+        ix.slotCount = 2 ^ k → ∀ id, find e ix id = scan kvs id := by
   obtain ⟨t, ht, hfind⟩ := index_find_iff_present k kvs (fun kv h => (hnz kv h).1) hdist hroom
   refine ⟨t, ht, ?_⟩
-  intro e hdr tail input ix hhdr hin hp hslots id hid
+  intro e hdr tail input ix hhdr hin hp hslots id
   obtain ⟨hlen, hsl⟩ := buildFrom_slots k kvs (emptyTable k) t (by simp [emptyTable]) ht
   have hb : ∀ kv, kv ∈ t → kv.1 < 2 ^ 64 ∧ kv.2 < 2 ^ 32 := by
     intro kv hkv
@@ -98,18 +108,24 @@ theorem index_find_on_bytes (k : Nat) (kvs : List (Nat × Nat))
     rcases hsl q with h0 | hm
     · rw [hs, emptyTable, slot_replicate] at h0; rw [h0]; decide
     · rw [hs] at hm; exact (hnz kv hm).2
-  exact (hfind e ix (encodes_of_parse e input ix hp k t hlen hslots hb hdr tail hhdr hin) id hid).1
+  exact (hfind e ix (encodes_of_parse e input ix hp k t hlen hslots hb hdr tail hhdr hin) id).1
 
-/-- **Known finding C17-1 (witness).**  The hypothesis `id ≠ 0` above cannot be dropped: 0 is the
-unused-slot marker, and `find` tests "signature matches" before "slot unused", so the key 0 —
-which can never be stored — is reported as found, at the (invalid) row 0 of the first unused slot
-of its probe sequence.  Here: a one-slot table without any unit.  (`DwarfPackage::find_cu` then
-fails with `InvalidIndexRow(0)` instead of returning `None`.) -/
+/-- **The key 0 is never found** — on any index whatsoever (any bytes, any slot count): 0 marks an
+unused slot and cannot be a present key.  (Regression of the repaired finding C17-1: before
+`fix: UnitIndex::find reported the ID 0 as present`, `find(0)` returned `Some(0)`, the row field
+of the first unused slot on its probe sequence, and `DwarfPackage::find_cu(DwoId(0))` failed
+with `InvalidIndexRow(0)` instead of returning `None`.) -/
+theorem find_zero_id_absent (e : Endian) (ix : UnitIndex) :
+    find e ix 0 = none ∧ (findN e ix 0).2 = 0 := by
+  simp [find, findN]
+
+/-- the former witness of C17-1 (a one-slot table whose only slot is unused), now as a
+regression: `find(0)` is `None` -/
 theorem find_zero_id_witness :
     ∃ ix, Index.parse .little
         [2, 0, 0, 0, 0, 0, 0, 0, 0, 0, 0, 0, 1, 0, 0, 0, 0, 0, 0, 0, 0, 0, 0, 0, 0, 0, 0, 0] = .ok ix ∧
-      find .little ix 0 = some 0 ∧ Index.sections .little ix 0 = .err .rInvalidIndexRow := by
-  refine ⟨_, rfl, by decide, by decide⟩
+      ix.slotCount = 1 ∧ find .little ix 0 = none := by
+  refine ⟨_, rfl, rfl, by decide⟩
 
 /-- **`find` terminates within `slot_count` probes for ANY index** — whatever the bytes of the
 hash arrays are (full tables without an empty slot, tables not built by insertion, zero slots,
@@ -284,6 +300,53 @@ theorem name_entries_exact (e : Endian) (ix : Names.Index) (offsets : List Nat) 
   nameEntries_series e ix offsets i hi hoff (fun v hv => by rw [pow256]; exact hb v hv)
     pre post es hes hpool hoi
 
+open Gimli.Names in
+/-- **Compile-unit and type-unit references resolve through the right list**: index `i` of the
+CU list is `cus[i]`; a type-unit index below `local_type_unit_count` is the local TU offset
+`ltus[i]`, an index `local_type_unit_count + j` is the foreign signature `ftus[j]` (8 bytes
+whatever the format). -/
+theorem name_units_exact (e : Endian) (ix : Names.Index) (cus ltus ftus : List Nat)
+    (hcu : ix.cuList = cus.flatMap fun v => toBytes e ix.format.wordSize v)
+    (hltu : ix.localTuList = ltus.flatMap fun v => toBytes e ix.format.wordSize v)
+    (hftu : ix.foreignTuList = ftus.flatMap fun v => toBytes e 8 v)
+    (hlc : ix.localTuCount = ltus.length)
+    (hbc : ∀ v, v ∈ cus → v < 2 ^ (8 * ix.format.wordSize))
+    (hbl : ∀ v, v ∈ ltus → v < 2 ^ (8 * ix.format.wordSize))
+    (hbf : ∀ v, v ∈ ftus → v < 2 ^ 64) :
+    (∀ i (hi : i < cus.length), ix.compileUnit e i = .ok cus[i]) ∧
+    (∀ i (hi : i < ltus.length), ix.typeUnit e i = .ok (.local_ ltus[i])) ∧
+    (∀ j (hj : j < ftus.length), ix.typeUnit e (ltus.length + j) = .ok (.foreign ftus[j])) :=
+  units_exact e ix cus ltus ftus hcu hltu hftu hlc (fun v hv => by rw [pow256]; exact hbc v hv)
+    (fun v hv => by rw [pow256]; exact hbl v hv) (fun v hv => by rw [pow256]; exact hbf v hv)
+
+open Gimli.Names in
+/-- **Parent chains**: `name_entry(offset)` for the pool offset a `DW_IDX_parent` attribute carries
+parses back exactly the entry encoded there. -/
+theorem name_parent_entry_exact (e : Endian) (ix : Names.Index) (pre post : Bytes) (en : AbsEntry)
+    (h : en.Ok ix.abbrevs) (hpool : ix.entryPool = pre ++ (encEntry e en ++ post)) :
+    ix.nameEntry e pre.length = .ok (entryOf pre.length en) :=
+  nameEntry_at e ix pre post en h hpool
+
+open Gimli.Names in
+/-- **The five attribute accessors** read the first attribute with their `DW_IDX` name and accept
+exactly the value class that name has: `die_offset`/`parent` an offset (`parent` also
+`flag_present` = "parent not indexed"), `type_hash`/`compile_unit`/`type_unit` an unsigned value
+(an index `< 2^32` that is then resolved through the unit lists); no such attribute gives `None`. -/
+theorem name_accessors_exact (e : Endian) (ix : Names.Index) (en : Names.Entry) :
+    (firstAttr en 3 = none → en.dieOffset = .ok none) ∧
+    (∀ f v, firstAttr en 3 = some ⟨3, f, .offset v⟩ → en.dieOffset = .ok (some v)) ∧
+    (firstAttr en 4 = none → en.parent = .ok none) ∧
+    (∀ f v, firstAttr en 4 = some ⟨4, f, .offset v⟩ → en.parent = .ok (some (some v))) ∧
+    (∀ f, firstAttr en 4 = some ⟨4, f, .flag true⟩ → en.parent = .ok (some none)) ∧
+    (∀ f v, firstAttr en 5 = some ⟨5, f, .unsigned v⟩ → en.typeHash = .ok (some v)) ∧
+    (firstAttr en 1 = none → en.compileUnit e ix = .ok none) ∧
+    (∀ f v, firstAttr en 1 = some ⟨1, f, .unsigned v⟩ → v < 2 ^ 32 →
+      en.compileUnit e ix = (ix.compileUnit e v).map some) ∧
+    (firstAttr en 2 = none → en.typeUnit e ix = .ok none) ∧
+    (∀ f v, firstAttr en 2 = some ⟨2, f, .unsigned v⟩ → v < 2 ^ 32 →
+      en.typeUnit e ix = (ix.typeUnit e v).map some) :=
+  accessors_exact e ix en
+
 /-! ## `.debug_pubnames` / `.debug_pubtypes` -/
 
 open Gimli.Pub in
@@ -310,6 +373,36 @@ theorem dwp_slice (pkg : SecKind → Bytes) (cols : List (SecKind × Nat × Nat)
     (h : ∀ k, k ∈ sliceOrder → Contributes pkg cols standalone k) :
     packageSlices pkg cols sliceOrder = .ok (sliceOrder.map fun k => (k, standalone k)) :=
   packageSlices_standalone pkg cols standalone huniq sliceOrder h
+
+/-- **`find_cu` / `find_tu` end to end: a unit fetched from a package equals the unit in its
+standalone object, and an id that is not in the package gives `None`.**  The package index holds
+the hash table built by insertion from `kvs` (any load factor, colliding signatures) and the
+matrices `offs` / `szs`; the column kinds are distinct.  Then for every id: if the exhaustive
+scan of `kvs` does not list it, `find_cu` returns `None`; if it lists it at a valid row whose
+matrix entries point at the unit's standalone sections inside the package sections, `find_cu`
+returns exactly those standalone sections (and empty ones for the kinds without a column). -/
+theorem dwp_find_cu_exact (k : Nat) (kvs : List (Nat × Nat))
+    (hnz : ∀ kv, kv ∈ kvs → kv.1 ≠ 0) (hdist : kvs.Pairwise (fun a b => a.1 ≠ b.1))
+    (hroom : kvs.length ≤ 2 ^ k) :
+    ∃ t, build k kvs = some t ∧
+      ∀ (e : Endian) (ix : UnitIndex), Encodes e k t ix →
+        ∀ (offs szs : List (List Nat)),
+          ix.sections.length = ix.sectionCount → ix.sections.Nodup →
+          offs.length = ix.unitCount → szs.length = ix.unitCount →
+          (∀ r, r ∈ offs → r.length = ix.sectionCount ∧ ∀ v, v ∈ r → v < 2 ^ 32) →
+          (∀ r, r ∈ szs → r.length = ix.sectionCount ∧ ∀ v, v ∈ r → v < 2 ^ 32) →
+          ix.offsets = encMatrix e offs → ix.sizes = encMatrix e szs →
+          ∀ (pkg standalone : SecKind → Bytes) (id : Nat),
+            (scan kvs id = none → findUnit e ix pkg id = .ok none) ∧
+            (∀ row, scan kvs id = some row → 1 ≤ row → row ≤ ix.unitCount →
+              (∀ kd, kd ∈ sliceOrder → Contributes pkg
+                (ix.sections.zip ((offs.getD (row - 1) []).zip (szs.getD (row - 1) []))) standalone kd) →
+              findUnit e ix pkg id = .ok (some (row, sliceOrder.map fun kd => (kd, standalone kd)))) := by
+  obtain ⟨t, ht, hfind⟩ := index_find_iff_present k kvs hnz hdist hroom
+  refine ⟨t, ht, ?_⟩
+  intro e ix henc offs szs hk hnodup hro hrs hco hcs hoff hsz pkg standalone id
+  exact findUnit_exact e kvs ix (fun id => (hfind e ix henc id).1) offs szs hk hnodup hro hrs hco hcs
+    hoff hsz pkg standalone id
 
 /-- `sliceOrder` covers every section kind an index can name -/
 theorem dwp_slice_all_kinds (k : SecKind) : k ∈ sliceOrder := by cases k <;> decide
